@@ -1,12 +1,15 @@
 import Zeno.Proofs.Url
+import Zeno.Proofs.Resolve
 import Zeno.Gen.Url
 /-!
 # C09 — URL canonicalisation is deterministic, idempotent, yields only http(s) URLs
 
 Statements only. `G` = facts regenerated from preprocessor/url.go and models/url.go. What is proved
 is Zeno's own part: the byte-level escaping and the (ordered) query re-encoding of `URLToString`,
-and the guard sequence of `NormalizeURL` over the record the URL parser returns. Parsing and
-reference resolution (ada, net/url, idna) are oracles, checked by the correspondence stream only.
+and the guard sequence of `NormalizeURL` over the record the URL parser returns. Parsing (ada, net/url,
+idna) is an oracle. Reference resolution is done by ada as well; `Model/Resolve.lean` is the resolver of
+the URL standard (RFC 3986 §5.2 on http(s) URLs) that the real normaliser is compared with on generated
+(page, reference) pairs, and the `c09_resolve_*` theorems say what that reference guarantees.
 Bytes are naturals `< 256`.
 -/
 namespace Zeno.Props.C09
@@ -53,5 +56,51 @@ theorem c09_shape (protocol hostname : String) (h : guard G protocol hostname = 
 /-- non-vacuity: `b=2&a=1&b=3&bad=%zz&x` canonicalises to `b=2&a=1&b=3&x=` -/
 example : canonQuery [98,61,50,38,97,61,49,38,98,61,51,38,98,97,100,61,37,122,122,38,120]
     = [98,61,50,38,97,61,49,38,98,61,51,38,120,61] := by decide
+
+/-! ## relative references, as the URL standard prescribes -/
+open Zeno.Model.Resolve in
+/-- **Dot segments.** Resolving any reference (absolute, scheme-relative, path-absolute, path-relative, query-only, empty)
+against a page with a host leaves a path that starts at the root and contains neither `.` nor `..`. -/
+theorem c09_resolve_no_dot_segments (b r : Ref) (hb : b.auth.isSome = true) (hbp : b.path.head? = some "") (hr : WfRef r) :
+    NoDots (resolve b r).path ∧ (resolve b r).path.head? = some "" := resolve_path b r hb hbp hr
+
+open Zeno.Model.Resolve in
+/-- **What a relative reference inherits**: without a scheme it keeps the page's scheme; without an authority the page's host;
+with one (`//host/…`) that host. -/
+theorem c09_resolve_inherits (b r : Ref) (hs : r.scheme = none) :
+    (resolve b r).scheme = b.scheme ∧ (r.auth = none → (resolve b r).auth = b.auth) ∧ (∀ a, r.auth = some a → (resolve b r).auth = some a) :=
+  resolve_inherits b r hs
+
+open Zeno.Model.Resolve in
+/-- **Query-only and empty references** keep the page's path; the former replaces the query, the latter keeps it. -/
+theorem c09_resolve_query_only (b r : Ref) (hs : r.scheme = none) (ha : r.auth = none) (hp : r.path = [""]) :
+    (resolve b r).path = rootIfEmpty (removeDots b.path) ∧
+    (∀ q, r.query = some q → (resolve b r).query = some q) ∧ (r.query = none → (resolve b r).query = b.query) :=
+  ⟨(by unfold resolve; simp [hs, ha, hp]), fun q hq => (resolve_query_only b r hs ha hp q hq).2, fun hq => (resolve_empty b r hs ha hp hq).2⟩
+
+open Zeno.Model.Resolve in
+/-- **Path-absolute references** keep nothing of the page's path or query. -/
+theorem c09_resolve_path_absolute (b r : Ref) (hs : r.scheme = none) (ha : r.auth = none) (hp : r.path.head? = some "") (hne : r.path ≠ [""]) :
+    (resolve b r).path = rootIfEmpty (removeDots r.path) ∧ (resolve b r).query = r.query := resolve_path_absolute b r hs ha hp hne
+
+open Zeno.Model.Resolve in
+/-- **Idempotent**: removing dot segments twice, or resolving a resolved URL again, changes nothing. -/
+theorem c09_resolve_idempotent (b r : Ref) (hb : b.auth.isSome = true) (hbs : b.scheme.isSome = true) (hbp : b.path.head? = some "") (hr : WfRef r) :
+    resolve b (resolve b r) = resolve b r ∧ removeDots (removeDots b.path) = removeDots b.path :=
+  ⟨resolve_idem b r hb hbs hbp hr, removeDots_idem b.path hbp⟩
+
+/-- non-vacuity: the standard's own examples (RFC 3986 §5.4) on an http page -/
+example :
+    let base := "http://a.example/b/c/d;p?q"
+    Zeno.Model.Resolve.resolveText base "g" = "http://a.example/b/c/g" ∧
+    Zeno.Model.Resolve.resolveText base "./g/" = "http://a.example/b/c/g/" ∧
+    Zeno.Model.Resolve.resolveText base "/g" = "http://a.example/g" ∧
+    Zeno.Model.Resolve.resolveText base "//g.example" = "http://g.example/" ∧
+    Zeno.Model.Resolve.resolveText base "?y" = "http://a.example/b/c/d;p?y" ∧
+    Zeno.Model.Resolve.resolveText base "" = "http://a.example/b/c/d;p?q" ∧
+    Zeno.Model.Resolve.resolveText base "../../../g" = "http://a.example/g" ∧
+    Zeno.Model.Resolve.resolveText base "../g/./h/../i#frag" = "http://a.example/b/g/i" ∧
+    Zeno.Model.Resolve.resolveText base "g;x=1/../y" = "http://a.example/b/c/y" := by
+  decide +kernel
 
 end Zeno.Props.C09
